@@ -126,4 +126,9 @@ def cases4() -> List[Dict[str, Any]]:
         return f"__docformat__ = '{fmt}'\n" + "".join(f"def f{k}():\n" + _doc(sections(g, u1)) + f"def g{k}():\n" + _doc(sections(g, u2)) for k, g in enumerate(groups))
     A(case("section-headings-that-repeat", {"pk/e.py": module("epytext", "=", "-"), "pk/r.py": module("restructuredtext", "=", "~"),
                                             "pk/n.py": "__docformat__ = 'numpy'\ndef f():\n" + _doc("Summary.\n\nNotes\n-----\nx\n\nNotes\n-----\ny\n\n" + long1 + "\n" + "-" * len(long1) + "\nz\n")}))
+    # ---- options that change how the tree enters the system (the trees are ordinary)
+    two = {"a.py": "from fake.b import f\nimport fake.b\nimport fake\ndef g():\n    'doc'\n", "b.py": "from fake import a\ndef f():\n    'doc'\n"}
+    for name, roots in (("importer-first", ["a.py", "b.py"]), ("imported-first", ["b.py", "a.py"])):
+        A({**case("prepend-package-" + name, two, roots), "extra": ["--prepend-package=fake"]})
+    A({**case("prepend-package-dotted", {"pk/__init__.py": "from top.sub.pk import m\n", "pk/m.py": "import top.sub\nfrom top import sub\nclass K: pass\n"}), "extra": ["--prepend-package=top.sub"]})
     return out
